@@ -17,7 +17,7 @@ func DecodeIPv6(b []byte) (Type, error) {
 	if len(b) != net.IPv6len {
 		return IPv6(make(net.IP, net.IPv6len)), nil
 	}
-	return IPv6(b), nil
+	return IPv6(copyBytes(b)), nil
 }
 
 // Serialize implements the Type interface.
